@@ -163,14 +163,14 @@ def main(tier):
     bld = maps_build()
     jobs = [(job_weights, (it,)) for it in (1, 2, 3, 4)] + [(job_weights_fp, (it,)) for it in (1, 2, 3, 4)]
     if tier == 'quick':
-        jobs += [(job_shift, (6, 2, it, axis, 1 if axis else 0, r)) for it in (1, 2, 3, 4) for axis in (0, 1) for r in (0, 3)]
-        jobs += [(job_poly, (10, it, axis, r, 1)) for it in (1, 2, 3, 4) for axis in (0, 1) for r in (0, 5)]
+        jobs += [(job_shift, (n, nb, it, axis, (nb - 1) if axis else 0, r)) for n, nb in ((6, 2), (5, 1)) for it in (1, 2, 3, 4) for axis in (0, 1) for r in (0, 3)]
+        jobs += [(job_poly, (n, it, axis, r, 1)) for n in (10, 11) for it in (1, 2, 3, 4) for axis in (0, 1) for r in (0, 5)]
     else:
         jobs += [(job_shift, (n, nb, it, axis, b, r)) for n, nb in ((6, 2), (9, 1)) for it in (1, 2, 3, 4) for axis in (0, 1) for b in range(nb) for r in range(n)]
         jobs += [(job_poly, (n, it, axis, r, 2)) for n in (10, 12) for it in (1, 2, 3, 4) for axis in (0, 1) for r in range(n)]
     chk.bounds = {'weights': 'every real f in [0,1) (exact reals); every float f for it<=2 in the IEEE theory; (1+e)-enclosure per weight for it=3,4; f=0 concrete IEEE',
-                  'whole-cell shifts': 'grids 6 (quick) / 6,9 (thorough), every k with |k| < n, both axes, it=1..4, one row at a time with all n cells arbitrary finite floats (z3 FP theory, bit patterns compared; sign of zero not distinguished)',
-                  'polynomials': 'grid 10 (quick) / 10,12, |off| <= 1 (2), symbolic coefficients in [-1,1], degree < it, interior cells'}
+                  'whole-cell shifts': 'grids 6 and 5 (quick) / 6,9 (thorough), every k with |k| < n, both axes, it=1..4, one row at a time with all n cells arbitrary finite floats (z3 FP theory, bit patterns compared; sign of zero not distinguished)',
+                  'polynomials': 'grids 10, 11 (quick) / 10,12, |off| <= 1 (2), symbolic coefficients in [-1,1], degree < it, interior cells'}
     chk.assumptions = ['llvm.fmuladd evaluated unfused (LangRef allows either; with 0/1 weights both give the same bits)', 'NaN/inf data and displacements beyond 2^24 cells are outside the claim',
                        'RotationMap::genHInfo (2-D weights) is not encoded: outside the claim of this check']
     chk.stubs = ['operator new/delete', 'modff exact']
